@@ -140,11 +140,21 @@ class Cfg:
         return GAMMAS[self.gamma] if self.gamma else None
 
     def make(self, kind):
-        return model_class(kind)(**self.kwargs())
+        m = model_class(kind)(**self.kwargs())
+        decoy_model(kind)
+        return m
 
     def describe(self):
         return dict(name=self.name, beta=self.beta, kappa=self.kappa, tau=self.tau, gamma=self.gamma,
                     limit_sigma=self.limit_sigma)
+
+
+def decoy_model(kind):
+    """Construct (and drop) a model of the same class with OTHER parameters right after the model a check is about to use.
+    Anything a constructor leaves at class or module level ("the parameters of the most recently built model") is thereby
+    wrong for the model under test; the decoy prelude (lib.decoy_prelude) covers the "first built wins" direction."""
+    b = 2.7 * BETA0 + 0.0371
+    return model_class(kind)(mu=4 * b, sigma=1.3 * b, beta=b, kappa=7e-3, tau=0.3 * b, limit_sigma=True)
 
 
 def config(name):
